@@ -834,7 +834,7 @@ def _extract_excerpt(text, pos, col):
         # Chop the line off at the end.
         return text[start : start + 90] + ' ...' + _caret_at(col - 1)
 
-    elif end - pos < 40:
+    elif end - pos < 42:
         # Chop the line off at the start.
         return '... ' + text[end - 90 : end] + _caret_at(pos - (end - 90) + 4)
 
